@@ -178,6 +178,17 @@ CHECKS = {
   note='Idiom table (len(get_observations(model)) = n_observations, ...) is explicit in rules/C19.py with one line of '
        'reason each.',
   ref='DESIGN.md §2 C19'),
+ 'C14': dict(
+  technique='contradiction rule (resolved column role versus literal column name in the same function) over all '
+            'pharmpy.modeling functions; ordering (CFG dominance) and idiom lints for the dose-flag, ADDL and baseline '
+            'code; the in-place-mutation clause is decided by the alias analysis of C06',
+  text='Narrow claim: Q1-Q4 are necessary conditions that are visible in code shape (a function that addresses the '
+       'frame with a literal role name fails for every dataset that names the column differently; truncating before '
+       'flagging, exploding before grouping and first-non-missing baselines each contradict the documented semantics '
+       'for specific records). Agreement of dose ids, TAD, ADDL expansion and ties with a record-by-record walk depends '
+       'on vectorised pandas semantics over run-time tables and is not decided by this family.',
+  note='Role literals are an explicit table (id: ID, L1).',
+  ref='DESIGN.md §2 C14'),
 }
 NA = {}
 
